@@ -414,3 +414,44 @@ def sse2_param_max(max_document_size):
 def db_fingerprint(db):
     from vlib.common import fp
     return fp([[k, v] for k, v in db.items()])
+
+
+def magic_db(rng, scheme, cfg, db):
+    """Rename some keywords and replace some identifiers (consistently) by values with magic prefixes / suffixes; the
+    database stays valid: keyword lengths within the limit and first byte non-zero, identifier size kept, non-zero."""
+    from vlib.instrument import MAGIC_PREFIXES, MAGIC_SUFFIXES
+    cp = caps(scheme, cfg)
+    out = {}
+    idmap = {}
+    n_kw = n_id = 0
+    for w, ids in db.items():
+        w2 = w
+        if rng.random() < 0.4:
+            if rng.random() < 0.6:
+                P = rng.choice(MAGIC_PREFIXES)
+                cand = P + w[len(P):] if len(w) > len(P) + 2 else (P + w)
+            else:
+                S = rng.choice(MAGIC_SUFFIXES)
+                cand = w + S
+            if cand and cand[0] != 0 and len(cand) <= cp["kw_limit"] and cand not in db and cand not in out:
+                w2 = cand
+                n_kw += 1
+        new = []
+        for i in ids:
+            if i not in idmap:
+                j = i
+                if rng.random() < 0.3 and len(i) >= 4:
+                    if rng.random() < 0.6:
+                        P = rng.choice(MAGIC_PREFIXES)
+                        j = (P + i[len(P):])[:len(i)] if len(P) <= len(i) - 2 else i
+                    else:
+                        S = rng.choice(MAGIC_SUFFIXES)
+                        j = i[:len(i) - len(S)] + S if len(S) <= len(i) - 2 else i
+                    if not any(j) or j in idmap.values() or any(j in v for v in db.values()):
+                        j = i
+                    elif j != i:
+                        n_id += 1
+                idmap[i] = j
+            new.append(idmap[i])
+        out[w2] = new
+    return out, n_kw, n_id
